@@ -28,7 +28,11 @@ open GunYu GunYu.Sender GunYu.Target
     (the Go oracle of the harness keeps an independent hand-written copy) -/
 def noRouteCmds : List Bytes := Gen.noRouteCmds.map lower
 
-def reservedPrefixes : List Bytes := [str "redis-gunyu-checkpoint", str "/redis-gunyu"]
+/-- reserved key prefixes: the two of `outFilter` (NewRedisOutput) and the bisync control namespace
+    (`bisyncNsFilter`, applied by the plain parser right after `outFilter`: rejecting by one filter
+    and then by the other keeps exactly the keys neither rejects) -/
+def reservedPrefixes : List Bytes :=
+  [str "redis-gunyu-checkpoint", str "/redis-gunyu", str "redis-gunyu-bisync:"]
 
 /-- key positions for the harness's command set (a subset of pkg/redis/keyspec;
     C10 owns the full table) -/
